@@ -1,4 +1,76 @@
-// harnesses for this file are added below
+// Kani harness for lightning/src/ln/inbound_payment.rs: the authenticated payment metadata codec
 use super::*;
 include!("/verif/hooks/common.rs");
-pub fn replay(_name: &str, _a: &[u128]) -> Option<Outcome> { None }
+
+// (P C04) encode/decode inverse of the metadata that `verify` authenticates and then trusts:
+// construct_info_bytes(..) == Ok(b)  ==>  decoding b with the masks `verify` uses yields
+// (method, min.unwrap_or(0), now + delta + 7200, cltv);  Err <=> min > MAX_VALUE_MSAT or the expiry does not fit 48 bits
+pub fn contract_info_bytes(method: u8, has_min: bool, min: u64, delta_secs: u32, now: u64, has_cltv: bool, cltv: u16) -> Outcome {
+	if method > 4 || now > (1u64 << 62) {
+		return Outcome::Vacuous;
+	}
+	let m = match Method::from_bits(method) {
+		Ok(m) => m,
+		Err(_) => return Outcome::Violated,
+	};
+	let min_o = if has_min { Some(min) } else { None };
+	let cltv_o = if has_cltv { Some(cltv) } else { None };
+	let expiry = calculate_absolute_expiry(now, delta_secs);
+	if expiry != now + delta_secs as u64 + 7200 {
+		return Outcome::Violated;
+	}
+	let should_fail = (has_min && min > MAX_VALUE_MSAT) || (has_cltv && expiry > (1u64 << 48) - 1);
+	match construct_info_bytes(min_o, m, delta_secs, now, cltv_o) {
+		Err(()) => {
+			if should_fail {
+				Outcome::Holds
+			} else {
+				Outcome::Violated
+			}
+		},
+		Ok(info) => {
+			if should_fail {
+				return Outcome::Violated;
+			}
+			// decode exactly as `verify` does
+			let method_bits = (info[0] & 0b1110_0000) >> METHOD_TYPE_OFFSET;
+			let mut amt = [0u8; AMT_MSAT_LEN];
+			let mut exp = [0u8; INFO_LEN - AMT_MSAT_LEN];
+			amt.copy_from_slice(&info[..AMT_MSAT_LEN]);
+			exp.copy_from_slice(&info[AMT_MSAT_LEN..]);
+			amt[0] &= 0b0001_1111;
+			let mut dec_cltv = None;
+			if has_cltv {
+				dec_cltv = Some(min_final_cltv_expiry_delta_from_info(info));
+				exp[0] &= 0;
+				exp[1] &= 0;
+			}
+			let dec_amt = u64::from_be_bytes(amt);
+			let dec_exp = u64::from_be_bytes(exp);
+			if method_bits == method && dec_amt == if has_min { min } else { 0 } && dec_exp == expiry && dec_cltv == cltv_o {
+				Outcome::Holds
+			} else {
+				Outcome::Violated
+			}
+		},
+	}
+}
+
+pub fn replay(name: &str, a: &[u128]) -> Option<Outcome> {
+	Some(match name {
+		"info_bytes" => contract_info_bytes(a[0] as u8, a[1] != 0, a[2] as u64, a[3] as u32, a[4] as u64, a[5] != 0, a[6] as u16),
+		_ => return None,
+	})
+}
+
+#[cfg(kani)]
+mod harnesses {
+	use super::*;
+	#[kani::proof]
+	#[kani::unwind(18)]
+	fn h_info_bytes() {
+		let o = contract_info_bytes(kani::any(), kani::any(), kani::any(), kani::any(), kani::any(), kani::any(), kani::any());
+		kani::cover!(o == Outcome::Holds);
+		assert!(o != Outcome::Violated);
+	}
+}
